@@ -273,8 +273,26 @@ class SymSet(metaclass=_SetMeta):
                 return True
         return False
 
+    ARBITRARY_ORDER = False     # harness switch: the iteration order of a set is unspecified (hash order)
+
     def __iter__(self):
-        return iter(list(self._k))
+        ks = list(self._k)
+        if SymSet.ARBITRARY_ORDER and len(ks) >= 2:
+            # every permutation is a possible iteration order of a Python set (it depends on the hashes, for strings
+            # on PYTHONHASHSEED); one order per set object and size, chosen by a case split
+            cache = getattr(self, "_order", None)
+            if cache is None or cache[0] != len(ks):
+                from .values import fresh_int
+                rest = list(range(len(ks)))
+                perm = []
+                while len(rest) > 1:
+                    j = int(fresh_int("set_order", 0, len(rest) - 1))
+                    perm.append(rest.pop(j))
+                perm.append(rest[0])
+                cache = (len(ks), perm)
+                self._order = cache
+            ks = [ks[i] for i in cache[1]]
+        return iter(ks)
 
     def __len__(self):
         return len(self._k)
